@@ -1,4 +1,10 @@
-"""Static per-property information used by bin/check for the evidence files."""
+"""Per-property static information for bin/check and bin/mkmanifest, loaded from bin/props/<ID>.json.
+
+Keys of each file: module (Coq module with [case]/[check_case]), rule (how cases are generated, what makes one
+non-trivial/distinct), assumptions (what is assumed / not carried by the proof), level_text, technique, design_ref,
+extra_trusted (additions to the common trusted base), optional harness_timeout (s), race (bool: also run the -race binary).
+"""
+import json, os, glob
 
 KERNEL = "Coq 8.16.1 kernel (coqc; vm_compute used for closed computations and for evaluating the model on the harness cases; native_compute not used)"
 TIE = ("hand transcription Go->Gallina, tied to /repo by the correspondence check: Go harness (module replace => /repo, "
@@ -6,25 +12,8 @@ TIE = ("hand transcription Go->Gallina, tied to /repo by the correspondence chec
 GO = "Go 1.23.5 compiler and runtime, linux/amd64 (int = 64 bit)"
 NOAX = "axioms: none (every Print Assumptions reports 'Closed under the global context')"
 
-
-def P(module, rule, assumptions, extra_trusted=(), level="", technique="", design_ref="", **kw):
-    d = dict(module=module, rule=rule, assumptions=list(assumptions), level_text=level, technique=technique,
-             design_ref=design_ref, trusted_base=[KERNEL, NOAX, TIE, GO] + list(extra_trusted))
-    d.update(kw)
-    return d
-
-
-PROPS = {
-    "C13": P("Slices.PartitionCheck",
-             "cases = (function, input slice, size); exhaustive over n<=24 (quick) / 48 (thorough), size 1..n+2, 6 functions, "
-             "plus random slices up to 300/2000 elements with repeated values; non-trivial = more than one piece and a remainder "
-             "(n > size > 1, n mod size != 0); distinct = distinct (fn,input,size) triples",
-             ["size <= 0 is outside the property (size 0 panics with a division by zero in Chunk, modelled; negative sizes not modelled)",
-              "that the returned pieces are sub-slices sharing memory with the input is not modelled (value model of slices)"],
-             level="Coq theorems for every element type, every list and every size >= 1: the transcribed loops of Chunk/ChunkFunc/"
-                   "Windowed/WindowedFunc/Pairs/PairsFunc compute closed-form reference partitions, whose concatenation, count "
-                   "(ceil(n/size)), piece lengths and non-emptiness are proved; model tied to the code by exhaustive small-scope + "
-                   "random differential runs evaluated with vm_compute, and a direct oracle on the implementation",
-             technique="Coq proof by induction on loop iterations over a Gallina transcription; vm_compute correspondence check",
-             design_ref="6/C13"),
-}
+PROPS = {}
+for f in sorted(glob.glob(os.path.join(os.path.dirname(os.path.abspath(__file__)), "props", "C*.json"))):
+    d = json.load(open(f))
+    d["trusted_base"] = [KERNEL, NOAX, TIE, GO] + list(d.get("extra_trusted", []))
+    PROPS[os.path.basename(f)[:-5]] = d
